@@ -20,11 +20,11 @@ ASSUME_COMMON = [
 ]
 
 # Families whose schedules must not depend on PYTHONHASHSEED (no string-hashed sets).
-HASHSEED_INDEPENDENT = ['c04:queue', 'c05:fail', 'c05:stop', 'c05:timeout', 'c13:par', 'c03:strategy', 'c10:ckpt', 'c12:skip']
+HASHSEED_INDEPENDENT = ['c04:queue', 'c04:aqueue', 'c05:fail', 'c05:stop', 'c05:timeout', 'c13:par', 'c03:strategy', 'c10:ckpt', 'c12:skip']
 
 CHECKS = {
     'C04': {
-        'families': [['c04:queue', 1.0]],
+        'families': [['c04:queue', 1.0], ['c04:aqueue', 0.4]],
         'runs': {'quick': 30000, 'thorough': 1500000},
         'budget': {'quick': 100, 'thorough': 1500},
         'level': 'exploration',
